@@ -202,6 +202,11 @@ func (cfg *Config) paramExp(pe *syntax.ParamExp) (string, error) {
 			str = string(rs)
 		} // else, elems are already sliced
 	case pe.Repl != nil:
+		if !set {
+			// An unset parameter expands to nothing,
+			// even if the pattern matches the empty string.
+			break
+		}
 		elems, err := cfg.replaceElems(pe.Repl, elems)
 		if err != nil {
 			return "", err
@@ -264,6 +269,9 @@ func (cfg *Config) paramExp(pe *syntax.ParamExp) (string, error) {
 		case syntax.OtherParamOps:
 			switch arg {
 			case "Q":
+				if !set {
+					break // an unset parameter expands to nothing, not to ''
+				}
 				str, err = syntax.Quote(str, syntax.LangBash)
 				if err != nil {
 					// Is this even possible? If a user runs into this panic,
